@@ -67,6 +67,7 @@ def run(ck: Checker, prog: Program, tier: str):
         ck.guard(c07._saf, ck, prog)
         ck.guard(c07._read_single, ck, prog)      # the deployed orientation of the file reaches the recording (None is passed on)
         ck.guard(c07._peer, ck, prog)             # ... and so does the azimuth code of the PEER component that is taken for north
+        ck.guard(c07._regex, ck, prog)            # ... read in full from the header line (NORTH_ROT = 135 is 135, not 1)
     # invariance of the bound formulas presupposes that ns and ew reach them through the same taper and transform
     from . import c01
     with ck.borrow(c01, "C04.R3+"):
